@@ -86,8 +86,12 @@ func VH_C02_Discipline() {
 // serially. The symbolic engine does not execute goroutines; it is only ever run natively.
 func VH_C02_Stress() {
 	e, _ := vhC02Engine()
-	if symBool() {
+	cfg := symInt() // bit 0: cache off, bit 1: auto-reload on
+	if cfg&1 != 0 {
 		e.SetCache(false)
+	}
+	if cfg&2 != 0 {
+		e.SetAutoReload(true)
 	}
 	want := map[string]string{}
 	for _, n := range []string{"t", "fresh", "dir/child", "other/page", "useslib"} {
@@ -245,6 +249,11 @@ func VH_C02_Interleave() {
 	}
 	if symBool() {
 		e.SetAutoReload(true)
+	}
+	if symBool() {
+		// some loader-served templates are cached already
+		e.Render("fresh", map[string]interface{}{"x": "w"})
+		e.Render("dir/child", map[string]interface{}{"x": "w"})
 	}
 	p, q := symChoice(len(vhC02IOps)), symChoice(len(vhC02IOps))
 	x, y := symStringIn(1, "aAb"), symStringIn(1, "aAb")
